@@ -91,6 +91,11 @@ def _rejection_kind(add: Func, t: ast.AST, formula_p: str, smiles_p: str) -> Opt
                 return "smiles"
     if isinstance(t, ast.UnaryOp) and isinstance(t.op, ast.Not) and isinstance(t.operand, ast.Call) and t.operand.args and isinstance(t.operand.args[0], ast.Name) and t.operand.args[0].id == smiles_p and "valid" in unparse(t.operand.func).lower():
         return "valid"
+    # `v = <parse>(smiles)` ... `if v is None: raise`
+    if isinstance(t, ast.Compare) and len(t.ops) == 1 and isinstance(t.ops[0], ast.Is) and isinstance(t.left, ast.Name) and isinstance(t.comparators[0], ast.Constant) and t.comparators[0].value is None:
+        defs = assignments_to(add, t.left.id)
+        if len(defs) == 1 and isinstance(defs[0][1], ast.Call) and defs[0][1].args and isinstance(defs[0][1].args[0], ast.Name) and defs[0][1].args[0].id == smiles_p:
+            return "valid"
     return None
 
 
@@ -245,6 +250,12 @@ def check(ctx) -> None:
     ctx.instance("C19-U3", "appended record is built from the parameters and decompose(smiles): %s" % detail, add.loc(app), ok=ok3)
     if not ok3:
         ctx.finding("C19-U3", cname + ":record", add.loc(app), "the appended record is not {formula: <param>, smiles: <param>, Composition: decompose(<smiles param>)} (%s)" % detail)
+    # the values that were checked are the values that are stored: neither parameter is rebound
+    for pn in (formula_p, smiles_p):
+        reb = assignments_to(add, pn)
+        ctx.instance("C19-U3", "parameter %r is not rebound in add_entry" % pn, add.loc(reb[0][0]) if reb else add.loc(), ok=not reb)
+        if reb:
+            ctx.finding("C19-U3", cname + ":parameter-rebound:" + pn, add.loc(reb[0][0]), "add_entry rebinds its parameter %r (%s): the duplicate checks compared the value as given, the record stores another one, so two entries can end up with the same %s" % (pn, unparse(reb[0][0])[:50], "SMILES" if pn == smiles_p else "formula"))
     # explicit Q on every path to the append
     q_ok = False
     for n in own_nodes(add.node):
@@ -315,7 +326,11 @@ def check(ctx) -> None:
 
     gate_if = rejections.get("valid")
     if gate_if is not None and dec is not None:
-        gcall = gate_if.test.operand
+        gt = gate_if.test
+        if isinstance(gt, ast.UnaryOp):
+            gcall = gt.operand
+        else:
+            gcall = assignments_to(add, gt.left.id)[0][1]
         gate = None
         if isinstance(gcall.func, ast.Attribute) and isinstance(gcall.func.value, ast.Name) and gcall.func.value.id == add.params[0]:
             gate = prog.lookup_method(cls, gcall.func.attr)
